@@ -1004,6 +1004,13 @@ let mev_eqb a b =
 let replay_trace progs tr =
   Obj.magic replay (sys progs) mev_eqb (minit progs) tr
 
+(** val replay_from :
+    (nat -> op list) -> mstate -> ((nat * mch) * mev) list -> (mstate option,
+    nat) sum **)
+
+let replay_from progs s tr =
+  Obj.magic replay (sys progs) mev_eqb s tr
+
 (** val peek : mstate -> nat -> mch -> mev option **)
 
 let peek s t c =
@@ -1146,8 +1153,7 @@ type rlctx =
 type rpc =
 | RIdle
 | RTALoad of ractx
-| RTACasR of ractx * bool * n
-| RTACasW of ractx * bool * bool
+| RTACas of ractx * bool * bool * n
 | RYield of rw * bool
 | RSpinNext of rw * bool
 | RPollNext of rw * bool
@@ -1157,8 +1163,7 @@ type rpc =
 | RQRearm of rqctx
 | RQFor of rqctx
 | RQLoad of rqctx
-| RQCasR of rqctx * bool * n
-| RQCasW of rqctx * bool * bool
+| RQCas of rqctx * bool * bool * n
 | RFix1 of rfixk
 | RFix2 of rfixk
 | RQUnl of rqctx * bool
@@ -1478,11 +1483,11 @@ let rdo_taload s t a =
    | RD ->
      if (||) s.wl s.wp
      then ta_fail s t a e
-     else rret s t (RTACasR (a, s.hq, s.rd)) e
+     else rret s t (RTACas (a, false, s.hq, s.rd)) e
    | WR ->
      if (||) s.wl (negb (N.eqb s.rd N0))
      then ta_fail s t a e
-     else rret s t (RTACasW (a, s.wp, s.hq)) e)
+     else rret s t (RTACas (a, s.wp, s.hq, N0)) e)
 
 (** val rafter_llock : rwstate -> nat -> rlctx -> rwstate **)
 
@@ -1600,19 +1605,19 @@ let wake_of s h =
   | Some k -> (k, h) :: []
   | None -> []
 
-(** val after_acq_a : rwstate -> nat -> ractx -> rw -> rpc **)
+(** val after_acq_a : rwstate -> nat -> ractx -> rpc **)
 
-let after_acq_a s t a k =
-  match a with
-  | RASpin (k0, linked) ->
-    (match k0 with
-     | RD -> RCS k
-     | WR -> if linked then RLLSwap (RLX (RQSync (WR, true))) else RCS k)
-  | RAPoll (k', b) ->
-    (match s.rfut t with
-     | Some _ -> RLLSwap (RLX (RQFut (k', b)))
-     | None -> RCS k)
-  | _ -> RCS k
+let after_acq_a s t a = match a with
+| RASpin (k, linked) ->
+  (match k with
+   | RD -> RCS (rkind_a a)
+   | WR ->
+     if linked then RLLSwap (RLX (RQSync (WR, true))) else RCS (rkind_a a))
+| RAPoll (k, b) ->
+  (match s.rfut t with
+   | Some _ -> RLLSwap (RLX (RQFut (k, b)))
+   | None -> RCS k)
+| _ -> RCS (rkind_a a)
 
 (** val rwstep : rwstate -> nat -> rch -> (rwstate * mev) option **)
 
@@ -1620,49 +1625,51 @@ let rwstep s t c =
   match s.rpcs t with
   | RIdle -> rdispatch s t c (s.rprog t)
   | RTALoad a -> rdo_taload s t a
-  | RTACasR (a, shq, srd) ->
-    let weak = match a with
-               | RATry _ -> false
-               | _ -> true in
-    let spur = (&&) weak (match c with
-                          | RSpur -> true
-                          | _ -> false) in
-    let ok =
-      (&&)
-        ((&&) ((&&) ((&&) (negb s.wl) (negb s.wp)) (eqb s.hq shq))
-          (N.eqb s.rd srd)) (negb spur)
-    in
-    let x = renc false false shq srd in
-    let e =
-      if weak
-      then EvCasW (VState, ro_ta_cas, ro_ta_casf, x,
-             (N.add x (Npos (XO (XO (XO XH))))), (rword s), ok)
-      else EvCas (VState, ro_ta_cas, ro_ta_casf, x,
-             (N.add x (Npos (XO (XO (XO XH))))), (rword s), ok)
-    in
-    if ok
-    then let s1 =
-           rlog
-             (rs_rholders (rs_rd s (N.add s.rd (Npos XH))) (t :: s.rholders))
-             t (rres_a a)
-         in
-         rret s1 t (after_acq_a s t a RD) e
-    else ta_fail s t a e
-  | RTACasW (a, swp, shq) ->
-    let ok =
-      (&&) ((&&) ((&&) (negb s.wl) (N.eqb s.rd N0)) (eqb s.wp swp))
-        (eqb s.hq shq)
-    in
-    let x = renc false swp shq N0 in
-    let e = EvCas (VState, ro_ta_cas, ro_ta_casf, x, (N.add x (Npos XH)),
-      (rword s), ok)
-    in
-    if ok
-    then let s1 =
-           rlog (rs_wholders (rs_wl s true) (t :: s.wholders)) t (rres_a a)
-         in
-         rret s1 t (after_acq_a s t a WR) e
-    else ta_fail s t a e
+  | RTACas (a, swp, shq, srd) ->
+    (match rkind_a a with
+     | RD ->
+       let weak = match a with
+                  | RATry _ -> false
+                  | _ -> true in
+       let spur = (&&) weak (match c with
+                             | RSpur -> true
+                             | _ -> false) in
+       let ok =
+         (&&)
+           ((&&) ((&&) ((&&) (negb s.wl) (negb s.wp)) (eqb s.hq shq))
+             (N.eqb s.rd srd)) (negb spur)
+       in
+       let x = renc false false shq srd in
+       let e =
+         if weak
+         then EvCasW (VState, ro_ta_cas, ro_ta_casf, x,
+                (N.add x (Npos (XO (XO (XO XH))))), (rword s), ok)
+         else EvCas (VState, ro_ta_cas, ro_ta_casf, x,
+                (N.add x (Npos (XO (XO (XO XH))))), (rword s), ok)
+       in
+       if ok
+       then let s1 =
+              rlog
+                (rs_rholders (rs_rd s (N.add s.rd (Npos XH)))
+                  (t :: s.rholders)) t (rres_a a)
+            in
+            rret s1 t (after_acq_a s t a) e
+       else ta_fail s t a e
+     | WR ->
+       let ok =
+         (&&) ((&&) ((&&) (negb s.wl) (N.eqb s.rd N0)) (eqb s.wp swp))
+           (eqb s.hq shq)
+       in
+       let x = renc false swp shq N0 in
+       let e = EvCas (VState, ro_ta_cas, ro_ta_casf, x, (N.add x (Npos XH)),
+         (rword s), ok)
+       in
+       if ok
+       then let s1 =
+              rlog (rs_wholders (rs_wl s true) (t :: s.wholders)) t (rres_a a)
+            in
+            rret s1 t (after_acq_a s t a) e
+       else ta_fail s t a e)
   | RYield (k, l) -> rret s t (RSpinNext (k, l)) EvYield
   | RSpinNext (k, l) ->
     (match c with
@@ -1707,43 +1714,45 @@ let rwstep s t c =
      | RD ->
        if (||) s.wl s.wp
        then rret s t (RQUnl (q, false)) e
-       else rret s t (RQCasR (q, s.hq, s.rd)) e
+       else rret s t (RQCas (q, false, s.hq, s.rd)) e
      | WR ->
        if (||) s.wl (negb (N.eqb s.rd N0))
        then rret s t (RQUnl (q, false)) e
-       else rret s t (RQCasW (q, s.wp, s.hq)) e)
-  | RQCasR (q, shq, srd) ->
-    let ok =
-      (&&) ((&&) ((&&) (negb s.wl) (negb s.wp)) (eqb s.hq shq))
-        (N.eqb s.rd srd)
-    in
-    let x = renc false false shq srd in
-    let e = EvCas (VState, ro_q_cas, ro_q_casf, x,
-      (N.add x (Npos (XO (XO (XO XH))))), (rword s), ok)
-    in
-    if ok
-    then let s1 =
-           rlog
-             (rs_rholders (rs_rd s (N.add s.rd (Npos XH))) (t :: s.rholders))
-             t (rres_q q)
-         in
-         rret (rs_queue s1 (qrem t s1.rqueue)) t (RFix1 (RFQ q)) e
-    else rret s t (RQLoad q) e
-  | RQCasW (q, swp, shq) ->
-    let ok =
-      (&&) ((&&) ((&&) (negb s.wl) (N.eqb s.rd N0)) (eqb s.wp swp))
-        (eqb s.hq shq)
-    in
-    let x = renc false swp shq N0 in
-    let e = EvCas (VState, ro_q_cas, ro_q_casf, x, (N.add x (Npos XH)),
-      (rword s), ok)
-    in
-    if ok
-    then let s1 =
-           rlog (rs_wholders (rs_wl s true) (t :: s.wholders)) t (rres_q q)
-         in
-         rret (rs_queue s1 (qrem t s1.rqueue)) t (RFix1 (RFQ q)) e
-    else rret s t (RQLoad q) e
+       else rret s t (RQCas (q, s.wp, s.hq, N0)) e)
+  | RQCas (q, swp, shq, srd) ->
+    (match rkind_q q with
+     | RD ->
+       let ok =
+         (&&) ((&&) ((&&) (negb s.wl) (negb s.wp)) (eqb s.hq shq))
+           (N.eqb s.rd srd)
+       in
+       let x = renc false false shq srd in
+       let e = EvCas (VState, ro_q_cas, ro_q_casf, x,
+         (N.add x (Npos (XO (XO (XO XH))))), (rword s), ok)
+       in
+       if ok
+       then let s1 =
+              rlog
+                (rs_rholders (rs_rd s (N.add s.rd (Npos XH)))
+                  (t :: s.rholders)) t (rres_q q)
+            in
+            rret (rs_queue s1 (qrem t s1.rqueue)) t (RFix1 (RFQ q)) e
+       else rret s t (RQLoad q) e
+     | WR ->
+       let ok =
+         (&&) ((&&) ((&&) (negb s.wl) (N.eqb s.rd N0)) (eqb s.wp swp))
+           (eqb s.hq shq)
+       in
+       let x = renc false swp shq N0 in
+       let e = EvCas (VState, ro_q_cas, ro_q_casf, x, (N.add x (Npos XH)),
+         (rword s), ok)
+       in
+       if ok
+       then let s1 =
+              rlog (rs_wholders (rs_wl s true) (t :: s.wholders)) t (rres_q q)
+            in
+            rret (rs_queue s1 (qrem t s1.rqueue)) t (RFix1 (RFQ q)) e
+       else rret s t (RQLoad q) e)
   | RFix1 f -> rdo_fix1 s t f
   | RFix2 f ->
     let next =
@@ -1854,6 +1863,13 @@ let rwsys progs =
 
 let rw_replay_trace progs tr =
   Obj.magic replay (rwsys progs) mev_eqb (rwinit progs) tr
+
+(** val rw_replay_from :
+    (nat -> rop list) -> rwstate -> ((nat * rch) * mev) list -> (rwstate
+    option, nat) sum **)
+
+let rw_replay_from progs s tr =
+  Obj.magic replay (rwsys progs) mev_eqb s tr
 
 (** val rwpeek : rwstate -> nat -> rch -> mev option **)
 
